@@ -34,6 +34,7 @@ type stats struct {
 	acceptedCorrect  map[string]int
 	sigCount         map[string]int
 	reduceCases      int
+	specialExec      int
 	xCases           int
 	xExec            int
 	xPatterns        map[string]int
@@ -133,7 +134,7 @@ func replay(args []string) {
 		"mixed_order_executions": st.mixedOrder, "mismatches": st.mism, "by_op": st.byOp, "by_pattern": st.byPattern,
 		"instantiations": st.insts, "storage": st.storage, "foreign_defects": st.foreign, "info_disagree": st.infoDisagree,
 		"undefined_differs": st.undefinedDiffers, "rejected_by_panic": st.rejected, "accepted_correct": st.acceptedCorrect,
-		"sig_counts": st.sigCount, "tolerance_factor": tolK, "int_unjudged": st.intUnjudged, "special_cases": st.xCases, "special_executions": st.xExec,
+		"sig_counts": st.sigCount, "tolerance_factor": tolK, "int_unjudged": st.intUnjudged, "scalar_special_point_executions": st.specialExec, "special_cases": st.xCases, "special_executions": st.xExec,
 		"special_patterns": st.xPatterns, "plain_receiver_by_op": st.plainRecv,
 		"branches": st.branches, "reduce_cases": st.reduceCases, "reduce_executions": st.reduceExec,
 		"reduce_elem_receiver_agrees": st.reduceAgree, "reduce_elem_receiver_disagrees": st.reduceDisagree})
